@@ -4,19 +4,22 @@
 # demand exit 1 with a replay that re-fails, then restore the tree.
 # usage: selftest/seeded.sh [--thorough] [--all-checks] [name ...]
 set -u
-cd /verif
+cd "$(dirname "$0")/.."
+# under `vp run --with-repo` the job works on its private copy of the repository (VP_RUN_REPO), never on the live /repo
+REPO="${VP_RUN_REPO:-/repo}"
+if [ -n "${VP_RUN_REPO:-}" ]; then sed -i "s#path = \"/repo\"#path = \"$VP_RUN_REPO\"#" sim/Cargo.toml; fi
 THOR=0; ALLC=0
 while [ "${1:-}" = "--thorough" ] || [ "${1:-}" = "--all-checks" ]; do
   [ "$1" = "--thorough" ] && THOR=1; [ "$1" = "--all-checks" ] && ALLC=1; shift
 done
 SD="${SEEDED_DIR:-seeded}"; [ $# -gt 0 ] && LIST="$*" || LIST=$(ls $SD 2>/dev/null)
-if [ -n "$(git -C /repo status --porcelain)" ]; then echo "repo working tree not clean" >&2; exit 2; fi
+if [ -n "$(git -C "$REPO" status --porcelain)" ]; then echo "repo working tree not clean" >&2; exit 2; fi
 fail=0
 for name in $LIST; do
   d=$SD/$name
   [ -f $d/patch.diff ] || continue
   prop=$(python3 -c "import json;print(json.load(open('$d/meta.json'))['property'])")
-  git -C /repo apply $PWD/$d/patch.diff || { echo "PATCH-DOES-NOT-APPLY $name"; fail=1; continue; }
+  git -C "$REPO" apply $PWD/$d/patch.diff || { echo "PATCH-DOES-NOT-APPLY $name"; fail=1; continue; }
   ids="$prop"; [ $ALLC -eq 1 ] && ids="C04 C05 C09 C11 C13 C15 C16"
   caught=""
   for id in $ids; do
@@ -35,6 +38,6 @@ for name in $LIST; do
     done
   done
   if [ -n "$caught" ]; then echo "CAUGHT  $name ($prop):$caught"; else echo "MISSED  $name ($prop)"; fail=1; fi
-  git -C /repo checkout -- . 
+  git -C "$REPO" checkout -- . 
 done
 exit $fail
